@@ -116,8 +116,11 @@ def _derived_input_domain(text, rec):
         inputs, _ = semcheck.resolve_declarations(prg, text, rec.get("inp", "auto"), rec.get("outp", "auto"))
         prg = preprocess(prg)
         dp = DomainPredicates(UniqueNames(prg, inputs), prg)
+        # (later passes rename / project the domain predicate, so its own name need not survive in the result: the
+        # call site is "DomainPredicates computed a domain for a declared input predicate from its rules alone" and the
+        # caller already requires that the result uses domain predicates)
         for p in inputs:
-            if p in dp.domains and (dp.domains[p].name + "(") in rec["result"]:
+            if p in dp.domains:
                 return True
     except Exception:  # noqa
         return False
